@@ -278,6 +278,9 @@ pub enum COp {
     Relocate,
     /// append > 1 MiB: relocation to the end plus file growth (mmap + file write locks)
     GrowFile,
+    /// append beyond the reservation of the region that is last in the file: it grows in
+    /// place (the thread switches to the dedicated region "last")
+    ExtendLast,
     Truncate,
     Rename,
     Remove,
@@ -291,10 +294,11 @@ pub enum COp {
     SetMinRegions,
 }
 
-pub const ALL_COPS: [COp; 14] = [
+pub const ALL_COPS: [COp; 15] = [
     COp::WriteFits,
     COp::Relocate,
     COp::GrowFile,
+    COp::ExtendLast,
     COp::Truncate,
     COp::Rename,
     COp::Remove,
@@ -315,6 +319,10 @@ fn pattern(k: usize, from: usize, len: usize) -> Vec<u8> {
 /// Executes `op` on thread k's own region; `model` is the thread-private expected content.
 fn run_cop(w: &World, k: usize, op: COp, model: &mut Option<Vec<u8>>, name: &mut String, verify: bool) -> Result<String, String> {
     let e = |x: rawdb::Error| format!("{x:?}").split([' ', '(', '{']).next().unwrap_or("").to_string();
+    if op == COp::ExtendLast && name != "last" {
+        *name = "last".to_string();
+        *model = Some(pattern(30, 0, 100));
+    }
     let region = || w.db.get_region(name).ok_or_else(|| "region missing".to_string());
     let needs_region = !matches!(
         op,
@@ -324,6 +332,17 @@ fn run_cop(w: &World, k: usize, op: COp, model: &mut Option<Vec<u8>>, name: &mut
         return Ok("skipped (own region removed)".into());
     }
     match op {
+        COp::ExtendLast => {
+            let r = region()?;
+            let m = model.as_mut().ok_or("no model")?;
+            let mut at = m.len();
+            // bytes of the dedicated region follow pattern 30
+            let d = pattern(30, at, 5000);
+            r.write(&d).map_err(e)?;
+            m.extend_from_slice(&d);
+            at += 5000;
+            let _ = at;
+        }
         COp::WriteFits | COp::Relocate | COp::GrowFile => {
             let n = match op {
                 COp::WriteFits => 10,
@@ -429,6 +448,8 @@ fn region_world(dir: &Path, n_threads: usize) -> World {
         let x = db.create_region_if_needed(&format!("x{k}")).unwrap();
         x.write(&pattern(k + 40, 0, 100)).unwrap();
     }
+    let last = db.create_region_if_needed("last").unwrap();
+    last.write(&pattern(30, 0, 100)).unwrap();
     db.flush().unwrap();
     World {
         dir: dir.to_path_buf(),
@@ -456,6 +477,7 @@ pub fn region_program_with(ops: Vec<Vec<COp>>, verify: bool) -> Program {
     for (f, kinds) in [
         ("compact", &[COp::Compact, COp::BgCompact][..]),
         ("growth", &[COp::GrowFile][..]),
+        ("extend_last", &[COp::ExtendLast][..]),
         ("create", &[COp::Create][..]),
         ("remove", &[COp::Remove][..]),
         ("relocate", &[COp::Relocate][..]),
@@ -911,6 +933,10 @@ pub fn plan(property: &str, tier: &str) -> Vec<Job> {
                 for b in writers.iter().skip(i) {
                     jobs.push(job(vec![vec![*a, COp::Reader], vec![*b, COp::Reader]], if quick { 1 } else { 2 }, true, if quick { 150 } else { 5000 }));
                 }
+            }
+            // the last region grows in place while others allocate at the end of the file
+            for b in [COp::Create, COp::Relocate, COp::GrowFile, COp::Remove] {
+                jobs.push(job(vec![vec![COp::ExtendLast, COp::Reader], vec![b, COp::Reader]], if quick { 2 } else { 3 }, true, if quick { 600 } else { 20000 }));
             }
             for a in [COp::Relocate, COp::GrowFile] {
                 for b in [COp::Flush, COp::Compact, COp::RegionFlush] {
